@@ -29,7 +29,7 @@ RuleAst(name, rv, src) ==
     [] rv.t = "name"  -> base @@ [tt |-> "reference", v |-> TS(rv.s)]
     [] rv.t = "chars" -> base @@ [tt |-> "string", v |-> TC(rv.c)]
     [] rv.t = "re"    -> base @@ [tt |-> "string", v |-> [k |-> "re", re |-> rv.re]]
-    [] rv.t = "val"   -> base @@ [tt |-> KindTT(rv.v), v |-> ValText(rv.v)]
+    [] rv.t = "val"   -> [base EXCEPT !.note = IF "note" \in DOMAIN rv THEN rv.note ELSE ""] @@ [tt |-> KindTT(rv.v), v |-> ValText(rv.v)]
     [] rv.t = "list"  -> [base EXCEPT !.items = [i \in DOMAIN rv.items |-> RuleAst("", rv.items[i], src)]] @@ [tt |-> "array", v |-> Empty]
     [] rv.t = "set"   -> [base EXCEPT !.props = RulesAst(rv.rules, src)] @@ [tt |-> "object", v |-> Empty]
 RulesAst(rules, src) == [i \in DOMAIN rules |-> RuleAst(rules[i].n, rules[i].v, src)]
